@@ -452,6 +452,174 @@ def forward_single_use_temps(tree: ast.AST) -> ast.AST:
     return _ForwardTemps().visit(tree)
 
 
+def _ends_with(body, kinds) -> bool:
+    return bool(body) and isinstance(body[-1], kinds) and not (isinstance(body[-1], ast.Return) and body[-1].value is not None)
+
+
+class _StructureGuards(ast.NodeTransformer):
+    """Guard clauses are written out as nesting: in a loop body `if c: ...; continue` followed by REST becomes
+    `if c: ... else: REST`, and a `continue` that is then the last statement of the iteration is dropped (an emptied
+    branch is removed by negating the test exactly); likewise `if c: ...; return` (no value) followed by REST in a
+    function body.  Both spellings of one control flow then read the same to every rule."""
+    def _nest(self, body, jump):
+        out = []
+        for i, s in enumerate(body):
+            if isinstance(s, ast.If) and not s.orelse and _ends_with(s.body, jump) and i + 1 < len(body):
+                s.orelse = self._nest(body[i + 1:], jump)
+                out.append(s)
+                return out
+            out.append(s)
+        return out
+
+    def _trim(self, body, jump):
+        """drop a jump that is the last action of the region; returns the new body (possibly empty)"""
+        if not body:
+            return body
+        last = body[-1]
+        if _ends_with(body, jump):
+            return body[:-1]
+        if isinstance(last, ast.If):
+            last.body = self._trim(last.body, jump)
+            last.orelse = self._trim(last.orelse, jump)
+            if not last.body and not last.orelse:
+                # both branches empty: only the test remains (kept for its evaluation only if it has a call)
+                if any(isinstance(x, ast.Call) for x in ast.walk(last.test)):
+                    body[-1] = ast.copy_location(ast.Expr(last.test), last)
+                else:
+                    body = body[:-1]
+            elif not last.body:
+                last.test, last.body, last.orelse = _negate_exact(last.test), last.orelse, []
+        return body
+
+    def visit_For(self, node):
+        self.generic_visit(node)
+        node.body = self._trim(self._nest(node.body, ast.Continue), ast.Continue) or [ast.copy_location(ast.Pass(), node)]
+        return node
+    visit_While = visit_For
+
+    def visit_FunctionDef(self, node):
+        self.generic_visit(node)
+        if not any(isinstance(x, (ast.Yield, ast.YieldFrom)) for x in ast.walk(node)):
+            node.body = self._trim(self._nest(node.body, ast.Return), ast.Return) or [ast.copy_location(ast.Pass(), node)]
+        return node
+
+
+def structure_guards(tree: ast.AST) -> ast.AST:
+    return _StructureGuards().visit(tree)
+
+
+class _NumpyIdioms(ast.NodeTransformer):
+    """One spelling per numpy operation (all pairs below are equivalent for the <=2-D float arrays of this package):
+    a @ b, np.matmul(a, b), a.dot(b) -> np.dot(a, b);  np.subtract/add/multiply/divide(a, b) -> a - b, ...;
+    np.identity -> np.eye;  np.multiply.outer -> np.outer;  np.random.random_sample/random/sample/ranf(n) ->
+    np.random.rand(n);  np.sqrt(np.dot(v, v)) / np.sqrt((v ** 2).sum()) / np.sqrt(np.sum(v * v)) -> np.linalg.norm(v);
+    np.all(x == 0), (x == 0).all(), not np.any(x != 0) -> not np.any(x);  x.mean(...) -> np.mean(x, ...)."""
+    def __init__(self, np_alias: str):
+        self.np = np_alias
+
+    def _np(self, *attrs):
+        e: ast.AST = ast.Name(self.np, ast.Load())
+        for a in attrs:
+            e = ast.Attribute(e, a, ast.Load())
+        return e
+
+    def _is_np(self, f: ast.AST, *attrs) -> bool:
+        for a in reversed(attrs):
+            if not (isinstance(f, ast.Attribute) and f.attr == a):
+                return False
+            f = f.value
+        return isinstance(f, ast.Name) and f.id == self.np
+
+    def visit_BinOp(self, node):
+        self.generic_visit(node)
+        if isinstance(node.op, ast.MatMult):
+            return ast.copy_location(ast.Call(self._np("dot"), [node.left, node.right], []), node)
+        return node
+
+    def visit_UnaryOp(self, node):
+        self.generic_visit(node)
+        if isinstance(node.op, ast.Not):
+            c = node.operand
+            if isinstance(c, ast.Call) and self._is_np(c.func, "any") and len(c.args) == 1 and not c.keywords:
+                x = c.args[0]
+                if isinstance(x, ast.Compare) and len(x.ops) == 1 and isinstance(x.ops[0], ast.NotEq) \
+                        and isinstance(x.comparators[0], ast.Constant) and x.comparators[0].value == 0 and not isinstance(x.comparators[0].value, bool):
+                    c.args = [x.left]
+        return node
+
+    def _square_of(self, e):
+        if isinstance(e, ast.BinOp) and isinstance(e.op, ast.Pow) and isinstance(e.right, ast.Constant) and e.right.value == 2:
+            return e.left
+        if isinstance(e, ast.BinOp) and isinstance(e.op, ast.Mult) and ast.dump(e.left) == ast.dump(e.right):
+            return e.left
+        return None
+
+    def visit_Call(self, node):
+        self.generic_visit(node)
+        f = node.func
+        nokw = not node.keywords and not any(isinstance(a, ast.Starred) for a in node.args)
+        binops = {"subtract": ast.Sub, "add": ast.Add, "multiply": ast.Mult, "divide": ast.Div, "true_divide": ast.Div}
+        for nm, op in binops.items():
+            if self._is_np(f, nm) and len(node.args) == 2 and nokw:
+                return ast.copy_location(ast.BinOp(node.args[0], op(), node.args[1]), node)
+        if self._is_np(f, "negative") and len(node.args) == 1 and nokw:
+            return ast.copy_location(ast.UnaryOp(ast.USub(), node.args[0]), node)
+        if self._is_np(f, "matmul") and len(node.args) == 2 and nokw:
+            node.func = self._np("dot")
+            return node
+        if self._is_np(f, "identity"):
+            node.func = self._np("eye")
+            return node
+        if self._is_np(f, "multiply", "outer"):
+            node.func = self._np("outer")
+            return node
+        for nm in ("random_sample", "random", "sample", "ranf"):
+            if self._is_np(f, "random", nm) and len(node.args) <= 1 and nokw:
+                node.func = self._np("random", "rand")
+                if node.args and isinstance(node.args[0], ast.Tuple):
+                    node.args = list(node.args[0].elts)
+                return node
+        if isinstance(f, ast.Attribute) and f.attr == "dot" and not self._is_np(f, "dot") and len(node.args) == 1 and nokw:
+            return ast.copy_location(ast.Call(self._np("dot"), [f.value, node.args[0]], []), node)
+        if isinstance(f, ast.Attribute) and f.attr == "mean" and not self._is_np(f, "mean") and not isinstance(f.value, ast.Name) or \
+                (isinstance(f, ast.Attribute) and f.attr == "mean" and isinstance(f.value, ast.Name) and f.value.id != self.np):
+            return ast.copy_location(ast.Call(self._np("mean"), [f.value] + node.args, node.keywords), node)
+        if self._is_np(f, "sqrt") and len(node.args) == 1 and nokw:
+            a = node.args[0]
+            v = None
+            if isinstance(a, ast.Call) and self._is_np(a.func, "dot") and len(a.args) == 2 and ast.dump(a.args[0]) == ast.dump(a.args[1]):
+                v = a.args[0]
+            elif isinstance(a, ast.Call) and self._is_np(a.func, "sum") and len(a.args) == 1 and not a.keywords:
+                v = self._square_of(a.args[0])
+            elif isinstance(a, ast.Call) and isinstance(a.func, ast.Attribute) and a.func.attr == "sum" and not a.args and not a.keywords:
+                v = self._square_of(a.func.value)
+            if v is not None:
+                return ast.copy_location(ast.Call(self._np("linalg", "norm"), [v], []), node)
+        # exact "is the zero vector" tests
+        zero_cmp = None
+        if self._is_np(f, "all") and len(node.args) == 1 and nokw:
+            zero_cmp = node.args[0]
+        elif isinstance(f, ast.Attribute) and f.attr == "all" and not node.args and not node.keywords:
+            zero_cmp = f.value
+        if isinstance(zero_cmp, ast.Compare) and len(zero_cmp.ops) == 1 and isinstance(zero_cmp.ops[0], ast.Eq) \
+                and isinstance(zero_cmp.comparators[0], ast.Constant) and zero_cmp.comparators[0].value == 0 \
+                and not isinstance(zero_cmp.comparators[0].value, bool):
+            return ast.copy_location(ast.UnaryOp(ast.Not(), ast.Call(self._np("any"), [zero_cmp.left], [])), node)
+        return node
+
+
+def numpy_idioms(tree: ast.Module) -> ast.AST:
+    alias = None
+    for st in ast.walk(tree):
+        if isinstance(st, ast.Import):
+            for al in st.names:
+                if al.name == "numpy":
+                    alias = al.asname or "numpy"
+    if alias is None:
+        return tree
+    return ast.fix_missing_locations(_NumpyIdioms(alias).visit(tree))
+
+
 class AnalysisError(Exception):
     """Anchor vanished / unparsable file / floor not met: exit 2, never a pass."""
 
@@ -602,12 +770,12 @@ class Repo:
                 try:
                     with open(path, encoding="utf-8") as fh:
                         src = fh.read()
-                    tree = strip_inert(ast.parse(src, filename=path))
+                    tree = numpy_idioms(strip_inert(ast.parse(src, filename=path)))
                     from .inline import inline_new_helpers, known_functions
                     tree, inl, skipped = inline_new_helpers(tree, mod, known_functions())
                     if inl:
                         self.inlined[mod] = sorted(set(inl))
-                    tree = orient_comparisons(inline_adjacent_temps(forward_single_use_temps(tree)))
+                    tree = orient_comparisons(inline_adjacent_temps(forward_single_use_temps(structure_guards(tree))))
                 except (SyntaxError, OSError, UnicodeDecodeError) as exc:
                     raise AnalysisError("cannot parse %s: %s" % (rel, exc))
                 m = Module(mod, path, rel, src, tree)
